@@ -40,6 +40,44 @@ CHECKS = {
              "histories of add/reset; all five constructors with their inverses, with and without non-sampling fields; zero-copy view semantics incl. a model whose "
              "view dtype was cached before the registry changed.",
         note="the registry is process-global; each case starts from reset", ref="DESIGN.md §3 C18"),
+    "C01": dict(
+        cat="exploration", technique="pre/post state monitor re-bound onto NestedSampler.consume_sample / populate_live_points / finalise in real runs",
+        text="Every replacement of every real run over a 32-cell (thorough: 43 cells x 6 seeds) configuration matrix is checked against a snapshot of the previous "
+             "live set: removed point = previous minimum, all other rows byte-identical, recorded insertion index = slot occupied, new point strictly above, in bounds, "
+             "finite prior, logL/logP equal to the raw user functions (8 ulp), ascending order, integral-state length; initial live set, finalise and an end-of-run trace "
+             "check (monotone discards, no point recorded twice). A third of the runs are stopped abruptly and resumed from the last checkpoint. Tie-prone model exercises "
+             "the strict inequality.",
+        note="decides only the executions produced (matrix listed in evidence); astropy/lal-dependent reparameterisations and CUDA not reached", ref="DESIGN.md §3 C01"),
+    "C03": dict(
+        cat="exploration", technique="post-iteration monitor on the real INS loop re-evaluating every stored density from the saved flows with an independent logit/Jacobian",
+        text="After update_evidence in every iteration, after finalise and right after every resume, for both the training and the independent sample set: each "
+             "log_q[i,j] is recomputed from flow j (own logit + Jacobian), mixture weights are recomputed from the data (fraction of samples per proposal), logQ, logW, "
+             "logU, unit-hypercube membership and logL are compared; 30 INS configurations incl. MAF/NSF, no reparameterisation, clip, strict/soft, replace-all, variable "
+             "draws, no i.i.d. set and 1-2 stop/resume cycles with and without saved tables (~2.8e6 density cells per quick run).",
+        note="float32 tolerance 2e-4(1+|v|) on densities (flows run in float32); samples the map itself clamps are classified by a data predicate", ref="DESIGN.md §3 C03"),
+    "C05": dict(
+        cat="exploration", technique="post-run oracle on FlowSampler outputs: estimator recomputed from the returned samples alone (mpmath quadrature / longdouble IS estimator)",
+        text="For every completed run of both matrices (uninterrupted, stopped-and-resumed, capped, prior-sampling): logZ, its error and all posterior weights are "
+             "recomputed from the returned samples with the actual live-count schedule; sample counts, ordering, stored logL/logP vs the raw model, birth likelihoods, "
+             "and every result-dictionary field are compared with the sampler object.",
+        note="the information recurrence for the error estimate is re-implemented independently in mpmath; runs that leave through the iteration cap use the running "
+             "rectangle estimate, as the code documents", ref="DESIGN.md §3 C05"),
+    "C09": dict(
+        cat="exploration", technique="post-populate / draw-once / latent-radius monitors on every population of real runs + two-sample KS against brute-force prior-in-contour sampling",
+        text="Part A: ~370 populations and ~47000 draws of real runs per quick tier are checked for bounds, logP/logL equal to the raw user functions, pool size, index "
+             "permutation, at-most-once hand-out, latent radius (draws and pool points mapped forwards) and in-bounds likelihood calls at the user boundary (both samplers). "
+             "Part B: 13 (thorough 19 x 4 seeds) stand-alone populations of N=2e4 (1e5) compared with exact prior samples restricted to the contour, KS per parameter, logL "
+             "and latent radius at total false-alarm 1e-9 plus the measured forced-acceptance allowance; also restricted to logL above the worst live point.",
+        note="statistical resolution ~ KS D of 0.01-0.03; distribution clause not reached for augmented/clustering proposals (listed in evidence); wide-contour literal "
+             "failure is a listed known finding with the likelihood-restricted statistic kept armed", ref="DESIGN.md §3 C09"),
+    "C15": dict(
+        cat="exploration", technique="offline trace checker over recorded (iteration, compared value) events + second run / resume-after-finish digests with a user-boundary call log",
+        text="Standard sampler: the condition compared at every iteration is recomputed from a pre-state snapshot; every iteration but the last exceeds the tolerance, "
+             "the last meets it or the cap; history rows equal the trace. INS: the guard is evaluated at the first statement of every loop body and at exit, with any/all, "
+             "min/max iteration; ESS, log_dZ, fractional error and Z_err are recomputed in longdouble from the stored samples. Finished runs are run again and resumed "
+             "from the final checkpoint: identical digests, zero likelihood calls.",
+        note="posterior samples are re-drawn at random by design and excluded from the idempotence digest; runs without a final checkpoint (prior sampling) have nothing "
+             "to resume and are counted", ref="DESIGN.md §3 C15"),
 }
 
 PENDING_REASON = "check designed in DESIGN.md but not yet built/calibrated in this session; not claimed until its monitor is silent on the unchanged tree"
